@@ -174,7 +174,9 @@ var (
 	c01RawText   = []string{"xmp", "iframe", "noembed", "noframes", "noscript", "plaintext"}
 	c01Malformed = []string{"a_b", "a-b:c", "é", "bé", "a.b", "h7", "a1", "b/", "custom-el", "unknownelement", "svg", "math", "object", "embed", "template", "select", "table"}
 	c01OddAttrs  = []string{"onclick", "onmouseover", "ONLOAD", "foo", "data-x", "DATA-Y", "xlink:href", "xml:lang", "TITLE", "Href", "aria-label", "a_b", "é", "x:y", "style", "srcdoc", "is", "nonce"}
-	c01WS        = []string{" ", " ", " ", "\t", "\n", "\f", "\r", "\r\n", "  ", " \t"}
+	c01WS        = []string{" ", " ", " ", "\t", "\n", "\f", "\r", "\r\n", "  ", " \t", " ", "\t", "\n", "\v", "\u00a0", "\u0085", "\u2028", "\u3000", "\x1c", " \u00a0", "\u00a0 "}
+	// characters that Unicode (or a careless helper) calls white space and HTML does not
+	c01NotHTMLWS = []string{"\v", "\u00a0", "\u0085", "\u1680", "\u2000", "\u2028", "\u2029", "\u202f", "\u3000", "\x1c", "\x1f", "\x00", "\ufeff"}
 	c01Words     = []string{"x", "k", "text", "Hello, World", "1 + 1 = 2", "a b", "café", "&amp;", "&lt;", "&#34;", "&copy", "&", "&#", "a=b", "`", "'", "\"", "-", "--", "]]>", "\x00", "\xff", "\xc3"}
 	c01Stray     = []string{"<", "</", "<!", "<?", "< ", "<1", "</ ", "<>", "</>", "<=", "<é", "<!x>", "<?php ?>", "<![CDATA[c]]>", ">", "/>"}
 	c01JS        = []string{"var x = 1;", "f(\"a\", 'b');", "if (a<b) {}", "x = \"</scr\" + \"ipt>\";", "var t = `a${1}`;", "// c\n", "/* c */", "x = \"<!--\";", "<!--", "-->", "<!--<script>", "x=`", "}", "${"}
@@ -797,6 +799,42 @@ func runC01(c *caseWriter) (string, bool, map[string]int) {
 			emit(c, "struct", t, "", c01Inert(sh), c01Wire(sh, func(int) string { return "str:" + hx(h) }))
 		}
 	}
+	// (2b) lexical edges of the tag grammar around an action in an attribute value: a character that
+	// is white space for Unicode but not for HTML at each white-space position of a tag; branches
+	// that end in different quoting states of the same attribute (join must refuse them); both
+	// branches taken
+	var edge []string
+	for _, w := range c01NotHTMLWS {
+		edge = append(edge,
+			"<a"+w+"title=\"{{.A}}\">k</a>", "<a title"+w+"=\"{{.A}}\">k</a>", "<a title="+w+"\"{{.A}}\">k</a>",
+			"<a title='x'"+w+"id=\"{{.A}}\">k</a>", "<span"+w+"title='{{.A}}'>k</span>", "<a href="+w+"\"/p?q={{.A}}\">k</a>",
+			"<a title=\"x\""+w+">{{.A}}</a>", "<a "+w+"title=\"{{.A}}\">k</a>", "</b"+w+"><i title=\"{{.A}}\">k</i>")
+	}
+	for _, c := range []string{".T", ".F"} {
+		for _, kw := range []string{"if", "with"} {
+			edge = append(edge,
+				"<a title={{"+kw+" "+c+"}}\"{{end}}{{.A}}\">k</a>",
+				"<a title={{"+kw+" "+c+"}}\"{{else}}'{{end}}{{.A}}\">k</a>",
+				"<a title={{"+kw+" "+c+"}}'{{end}}{{.A}}'>k</a>",
+				"{{"+kw+" "+c+"}}<input value=\"{{else}}<input value={{end}}{{.A}}\" name=\"n\">",
+				"<a title{{"+kw+" "+c+"}}=\"{{else}}={{end}}{{.A}}\">k</a>",
+				"<a {{"+kw+" "+c+"}}title=\"{{else}}title={{end}}{{.A}}\">k</a>",
+				"<a title=\"{{"+kw+" "+c+"}}\"{{end}} id=\"{{.A}}\">k</a>",
+				"<a title=\"x{{"+kw+" "+c+"}}\"{{end}}>{{.A}}</a>",
+				"<b>{{"+kw+" "+c+"}}<i title=\"{{end}}{{.A}}\">k</i></b>",
+				"{{"+kw+" "+c+"}}<textarea>{{end}}{{.A}}</textarea>",
+				"{{"+kw+" "+c+"}}<!--{{end}}{{.A}}-->")
+		}
+		edge = append(edge, "<a title={{range .L}}\"{{end}}{{.A}}\">k</a>", "<a title={{range .E}}\"{{end}}{{.A}}\">k</a>",
+			"<a title=\"{{range .L}}{{.}}\"{{end}} id=\"{{.A}}\">k</a>")
+	}
+	for _, t := range edge {
+		for _, T := range []bool{true, false} {
+			c01Emit(c, t, "", c01Shape{T, 2}, idx, 3)
+			idx++
+		}
+		k.note(t, sh)
+	}
 	// every single byte in the basic positions
 	for _, t := range []string{"{{.A}}", "<p>{{.A}}</p>", "<b title=\"{{.A}}\">k</b>", "<b title='{{.A}}'>k</b>", "<title>{{.A}}</title>", "<textarea>{{.A}}</textarea>",
 		"<a href=\"{{.A}}\">k</a>", "<a href=\"/p?q={{.A}}\">k</a>", "<a href='/p/{{.A}}'>k</a>", "<img srcset=\"{{.A}}\">", "<b title=\"{{.A}}{{.B}}\">{{.A}}{{.B}}</b>"} {
@@ -858,6 +896,7 @@ func runC01(c *caseWriter) (string, bool, map[string]int) {
 	}
 	// the models the theorems are about, tied to the code in the same run
 	genSanitizerApply(c, quick)
+	genTmplText(c, quick) // contextAfterText / escapeText / transitions: C01_alignment_open_attribute is about this model
 	for _, v := range reachableContexts(2, 260) {
 		emit(c, "sanitizer_for", ctxIn(v))
 	}
